@@ -263,6 +263,28 @@ fn data_item(d: &Data) -> Item {
 
 const ITER_CAP: usize = 200_000;
 
+thread_local! {
+    /// total number of entries one walk may visit (garbage pages reached through a damaged
+    /// image can describe astronomically large trees)
+    static WALK_BUDGET: std::cell::Cell<usize> = const { std::cell::Cell::new(0) };
+}
+
+pub fn set_walk_budget(n: usize) {
+    WALK_BUDGET.with(|b| b.set(n));
+}
+
+fn spend() -> bool {
+    WALK_BUDGET.with(|b| {
+        let v = b.get();
+        if v == 0 {
+            false
+        } else {
+            b.set(v - 1);
+            true
+        }
+    })
+}
+
 /// Read a whole bucket through the cursor API, recursively, plus cross-checks between the
 /// different read routes. Returns the contents as seen through `cursor`, and a list of
 /// inconsistencies between routes.
@@ -274,9 +296,9 @@ pub fn walk_bucket(b: &Bucket, depth: u32, incons: &mut Vec<String>) -> MBucket 
     let mut kvs = Vec::new();
     for d in b.cursor() {
         n += 1;
-        if n > ITER_CAP {
-            incons.push("cursor does not terminate".into());
-            break;
+        if n > ITER_CAP || !spend() {
+            incons.push("cursor does not terminate (iteration budget exhausted)".into());
+            return out;
         }
         let k = d.key().to_vec();
         if let Some(p) = &prev {
@@ -335,14 +357,23 @@ pub fn walk_bucket(b: &Bucket, depth: u32, incons: &mut Vec<String>) -> MBucket 
 }
 
 pub fn walk_tx(tx: &Tx, incons: &mut Vec<String>) -> MBucket {
+    if WALK_BUDGET.with(|b| b.get()) == 0 {
+        set_walk_budget(2_000_000);
+    }
+    let out = walk_tx_inner(tx, incons);
+    set_walk_budget(0);
+    out
+}
+
+fn walk_tx_inner(tx: &Tx, incons: &mut Vec<String>) -> MBucket {
     let mut out = MBucket::default();
     let mut prev: Option<Vec<u8>> = None;
     let mut n = 0;
     for (name, b) in tx.buckets() {
         n += 1;
-        if n > ITER_CAP {
-            incons.push("root bucket listing does not terminate".into());
-            break;
+        if n > ITER_CAP || !spend() {
+            incons.push("root bucket listing does not terminate (iteration budget exhausted)".into());
+            return out;
         }
         let k = name.name().to_vec();
         if let Some(p) = &prev {
